@@ -82,7 +82,7 @@ IT_SORT = (
 )
 IT_SLICE = tuple(
     ("slice", s, e)
-    for s, e in ((0, 1), (1, 3), (2, None), (0, 0), (1, 1), (3, 5), (0, None), (0, 2), (6, 8))
+    for s, e in ((0, 1), (1, 3), (2, None), (0, 0), (1, 1), (3, 5), (0, None), (0, 2), (6, 8), (0, 9))
 )
 IT_CHAIN = (
     ("chain", ("self",)),
@@ -117,6 +117,7 @@ IT_REDUCED = (
     ("slice", 2, None),
     ("slice", 0, 0),
     ("slice", 3, 5),
+    ("slice", 0, 9),
     ("chain", ("self",)),
     ("chain", ("L2",)),
     ("chain", ("E0",)),
